@@ -33,6 +33,10 @@ ENG_A = "simio"
 ENG_B = "simnet"
 
 CHECKS = {
+ "C30": dict(level="exploration", engine=ENG_B, design="DESIGN.md §4 C30",
+   technique="deterministic multi-node simulation with connection fault injection at the libc socket seam: two nodes (real requestor x real acceptor in the four sync/async pairings, or one real side against a stub that may send any PDU at any time) run seed-drawn action scripts over {send, receive, release, abort, drop, serve-until-release}; a seeded scheduler decides interleaving (release collisions), short sends, partial deliveries and, in half of the runs, connection cuts, failing sends and read timeouts; release/abort outcomes and each side's send sequence are checked against the PS3.8 state machine over the recorded wire history (events stamped with the scheduler's global sequence number), plus bounded-step liveness",
+   text="release() returns Ok only if the peer's next PDU after those already consumed is A-RELEASE-RP and Err when it is anything else (release request = collision, abort, data, unknown PDU, association PDU) or the connection closed/failed; abort() that returns Ok left an A-ABORT as the side's last PDU; after release/abort/drop the side's descriptor is closed; a side sends nothing after its A-ABORT or A-RELEASE-RP, no P-DATA after its A-RELEASE-RQ and A-RELEASE-RP only after having received A-RELEASE-RQ; every node returns within the step budget once the peer answered or the connection is closed or failed.",
+   note="Both sides run unmodified dicom-rs code on real std/tokio TcpStream values whose descriptors are simulated. The acceptor application is a scripted loop over the library API (the storescp loops are C32's nodes). No wall clock is simulated: a read timeout is a scheduler event that makes a blocked recv return EAGAIN when the socket had a timeout configured. Bytes are never lost, duplicated or reordered inside a connection (TCP); connection-level faults are injected."),
  "C29": dict(level="exploration", engine=ENG_B, design="DESIGN.md §4 C29",
    technique="deterministic multi-node simulation at the libc socket seam: a real requestor node (establish / establish_async through an interposed connect()) and a real acceptor node in the four sync/async pairings under a seeded scheduler (interleaving, short sends, partial deliveries, short receives); agreement and PDU-limit invariants over the recorded wire history and both sides' views",
    text="Seeded search over requestor options x acceptor options x transfer scripts x network schedules with BOTH peers running unmodified dicom-rs code. Invariants: both sides report the same accepted contexts, equal to the negotiation model applied to the request actually seen on the wire; each side's peer maximum equals what the other advertised (0 -> largest, clamp); proposed ids distinct and odd; NoAcceptedPresentationContexts iff nothing is acceptable; every P-DATA PDU on the wire is within the receiver's maximum; a send above the peer's maximum returns SendTooLongPdu and leaves nothing on the wire (the accepted sends equal the P-DATA PDUs on the wire, in order); release succeeds after a clean exchange.",
